@@ -8,6 +8,7 @@
 #include "lpc/array.h"
 #include "lpc/buffer.h"
 #include "lpc/object.h"
+#include "rc.h"
 
 #include <sys/stat.h>
 #include <fcntl.h>
@@ -307,6 +308,13 @@ void f_read_bytes (void) {
       len = (size_t)arg[2].u.number;
     }
   str = read_bytes (arg[0].u.string, start, len, &rlen);
+  /* read_bytes() is limited by the maximum byte transfer only; what it returns
+   * here becomes an LPC string (read_buffer() makes a buffer of it instead) */
+  if (str && rlen > (size_t)CONFIG_INT (__MAX_STRING_LENGTH__))
+    {
+      FREE_MSTR (str);
+      error ("read_bytes: result exceeds maximum string length.\n");
+    }
   pop_n_elems (num_arg);
   if (str == 0)
     push_number (0);
